@@ -374,3 +374,38 @@ def run_c10(tier_: str) -> int:
 
 def run(prop: str, tier_: str) -> int:
     return run_c06(tier_) if prop == "C06" else run_c10(tier_)
+
+
+def replay(prop: str, path: str) -> int:
+    from kio.serial import entity_reader
+    from kio.serial.errors import BufferUnderflow
+
+    doc = common.load_replay(path)
+    case = doc["case"]
+    cls = walk.resolve(case["class"])
+    res = Result(prop, "fault_enumeration" if prop == "C06" else "exploration", doc.get("tier", "quick"))
+    st = steps.Steps()
+    st.start()
+    try:
+        if prop == "C10":
+            print(f"replay C10: {case['class']} on {len(case['input'])} input bytes ({doc['key']})")
+            c10_case(res, st, cls, entity_reader(cls), case["input"], case.get("mutation", "?"), {})
+        else:
+            raw, c = case["encoding"], case["cut"]
+            print(f"replay C06: {case['class']} prefix {c}/{len(raw)} ({doc['key']})")
+            src = io.BytesIO(raw[:c]) if case.get("source") == "bytesio" else ReadOnlySource(raw, cut=c)
+            st.arm(_budget(c))
+            try:
+                out = entity_reader(cls)(src)
+                res.violation(doc["key"], f"{case['class']}: prefix of {c}/{len(raw)} bytes decoded to a value: {out!r}"[:600], case)
+            except BufferUnderflow:
+                pass
+            except steps.StepBudgetExceeded:
+                res.violation(doc["key"], f"{case['class']}: decoding a {c}-byte prefix exceeded {_budget(c)} logical steps", case)
+            except Exception as exc:  # noqa: BLE001
+                res.violation(doc["key"], f"{case['class']}: prefix of {c}/{len(raw)} bytes raised {type(exc).__name__} instead of BufferUnderflow: {exc!r}", case)
+            finally:
+                st.disarm()
+    finally:
+        st.stop()
+    return common.finish_replay(res)
